@@ -19,6 +19,11 @@ pub enum SimCancel {
     Fuel,
 }
 
+/// Searches unwound by the harness (cancel / fuel) since the counter was last reset. It is
+/// bumped *before* the unwind starts, i.e. before any lock guard of the code under test is
+/// dropped (and possibly poisoned).
+pub static INJECTED_UNWINDS: std::sync::atomic::AtomicU64 = std::sync::atomic::AtomicU64::new(0);
+
 pub const NSITES: usize = 32;
 pub const NO_OBJ: u32 = u32::MAX;
 
@@ -133,10 +138,12 @@ pub fn hook(site_id: u32, aux: usize) {
     }
     if ctx.op_steps.get() > ctx.fuel.get() {
         ctx.armed.set(false);
+        INJECTED_UNWINDS.fetch_add(1, std::sync::atomic::Ordering::SeqCst);
         std::panic::resume_unwind(Box::new(SimCancel::Fuel));
     }
     if ctx.op_steps.get() == ctx.cancel_at.get() {
         ctx.armed.set(false);
+        INJECTED_UNWINDS.fetch_add(1, std::sync::atomic::Ordering::SeqCst);
         std::panic::resume_unwind(Box::new(SimCancel::Cancel));
     }
     if !ctx.sched.is_null() {
@@ -198,6 +205,8 @@ pub struct SchedStats {
     pub stall: u64,
     pub decision_points: u64,
     pub max_inflight_same_obj: u64,
+    /// baton taken away from a thread that blocked on a real lock held by a parked thread
+    pub blocked_handoffs: u64,
 }
 
 pub type Segment = (u32, u64);
@@ -221,6 +230,17 @@ struct State {
     midsearch: Vec<u32>,
     /// true while the thread is parked at a hook site (not at an op boundary)
     parked_at_hook: Vec<bool>,
+    /// the baton holder went to sleep in the kernel without reaching a decision point: it
+    /// is waiting for a real lock held by a parked thread (code under test that holds a
+    /// lock across hook points). Blocked threads are not runnable until they show up again.
+    blocked: Vec<bool>,
+    ktid: Vec<i32>,
+    harness_wait: Vec<bool>,
+    progress: u64,
+    last_progress_seen: u64,
+    stall_ticks: u32,
+    last_progress_at: std::time::Instant,
+    prev_holder: usize,
     stats: SchedStats,
     ev: Fnv,
 }
@@ -233,6 +253,29 @@ pub struct Scheduler {
 
 const NOBODY: usize = usize::MAX;
 const WATCHDOG: Duration = Duration::from_secs(120);
+const STALL_TICK: Duration = Duration::from_micros(400);
+
+extern "C" {
+    fn syscall(num: i64, ...) -> i64;
+}
+
+fn gettid() -> i32 {
+    #[cfg(target_arch = "x86_64")]
+    const SYS_GETTID: i64 = 186;
+    #[cfg(target_arch = "aarch64")]
+    const SYS_GETTID: i64 = 178;
+    unsafe { syscall(SYS_GETTID) as i32 }
+}
+
+/// Kernel scheduling state of one of our threads: Some('S') sleeping, Some('R') running ...
+fn thread_state(ktid: i32) -> Option<char> {
+    if ktid <= 0 {
+        return None;
+    }
+    let s = std::fs::read_to_string(format!("/proc/self/task/{}/stat", ktid)).ok()?;
+    let i = s.rfind(')')?;
+    s[i + 1..].trim_start().chars().next()
+}
 
 pub struct SchedConfig {
     pub nthreads: usize,
@@ -279,6 +322,14 @@ impl Scheduler {
                 next_low: 0,
                 midsearch: vec![NO_OBJ; n],
                 parked_at_hook: vec![false; n],
+                blocked: vec![false; n],
+                ktid: vec![0; n],
+                harness_wait: vec![false; n],
+                progress: 0,
+                last_progress_seen: 0,
+                stall_ticks: 0,
+                last_progress_at: std::time::Instant::now(),
+                prev_holder: NOBODY,
                 stats: SchedStats::default(),
                 ev: Fnv::default(),
             }),
@@ -300,23 +351,53 @@ impl Scheduler {
         let first = g.initial(self.n);
         g.current = first;
         g.run_len = 0;
+        g.note_progress();
         drop(g);
         self.cvs[first].notify_one();
     }
 
-    /// Block until this thread holds the baton.
-    pub fn wait_turn(&self, tid: usize) {
-        let mut g = self.lock();
+    /// Park until this thread holds the baton. While parked, a thread periodically checks
+    /// whether the baton holder has fallen asleep in the kernel without reaching a decision
+    /// point (it waits for a real lock that a parked thread holds); if so the baton is
+    /// taken away from it and given to a runnable thread, so that code which legitimately
+    /// serialises searches with a lock can still be scheduled.
+    fn park<'a>(&'a self, tid: usize, mut g: std::sync::MutexGuard<'a, State>) -> std::sync::MutexGuard<'a, State> {
         while g.current != tid {
-            let (ng, to) = match self.cvs[tid].wait_timeout(g, WATCHDOG) {
+            // one designated watcher (the thread that handed the baton over) ticks fast
+            let tick = if g.prev_holder == tid || g.prev_holder == NOBODY { STALL_TICK } else { Duration::from_millis(20) };
+            let (ng, to) = match self.cvs[tid].wait_timeout(g, tick) {
                 Ok(x) => x,
                 Err(p) => p.into_inner(),
             };
             g = ng;
-            if to.timed_out() && g.current != tid {
-                harness_fatal("watchdog: baton holder made no progress (unschedulable blocking primitive held across a hook point?)");
+            if g.current == tid {
+                break;
+            }
+            if to.timed_out() {
+                if let Some(next) = g.check_stall(self.n) {
+                    self.cvs[next].notify_one();
+                }
+                if g.last_progress_at.elapsed() > WATCHDOG {
+                    harness_fatal("watchdog: no thread made progress (deadlock in the code under test, or an unschedulable blocking primitive)");
+                }
             }
         }
+        g
+    }
+
+    /// Block until this thread holds the baton (thread start).
+    pub fn wait_turn(&self, tid: usize) {
+        let mut g = self.lock();
+        g.ktid[tid] = gettid();
+        let _g = self.park(tid, g);
+    }
+
+    /// The calling thread is about to block in a wait owned by the harness (pristine oracle
+    /// pipe): that is not a lock of the code under test.
+    pub fn set_harness_wait(&self, tid: usize, v: bool) {
+        let mut g = self.lock();
+        g.harness_wait[tid] = v;
+        g.note_progress();
     }
 
     /// How many other threads are parked mid-search on `obj` right now.
@@ -333,7 +414,18 @@ impl Scheduler {
     /// A decision point: hook call (site != 0) or op boundary (site == 0).
     pub fn decision_point(&self, tid: usize, site_id: u32, aux: usize, look_depth: u32, obj: u32) {
         let mut g = self.lock();
-        debug_assert_eq!(g.current, tid);
+        if g.current != tid {
+            // we were presumed blocked on a lock and lost the baton; we are back
+            g.blocked[tid] = false;
+            g.note_progress();
+            if g.current == NOBODY {
+                // everyone else finished while we were blocked
+                g.current = tid;
+                g.run_len = 0;
+            }
+            g = self.park(tid, g);
+        }
+        g.note_progress();
         g.dp_count += 1;
         g.run_len += 1;
         g.stats.decision_points += 1;
@@ -374,25 +466,27 @@ impl Scheduler {
         } else {
             g.stats.boundary_switch += 1;
         }
+        g.prev_holder = tid;
         g.current = next;
         g.run_len = 0;
         self.cvs[next].notify_one();
-        while g.current != tid {
-            let (ng, to) = match self.cvs[tid].wait_timeout(g, WATCHDOG) {
-                Ok(x) => x,
-                Err(p) => p.into_inner(),
-            };
-            g = ng;
-            if to.timed_out() && g.current != tid {
-                harness_fatal("watchdog: baton holder made no progress (unschedulable blocking primitive held across a hook point?)");
-            }
-        }
+        g = self.park(tid, g);
         g.parked_at_hook[tid] = false;
     }
 
     /// Thread exit: hand the baton to someone else (forced switch).
     pub fn finish(&self, tid: usize) {
         let mut g = self.lock();
+        if g.current != tid {
+            g.blocked[tid] = false;
+            g.note_progress();
+            if g.current == NOBODY {
+                g.current = tid;
+                g.run_len = 0;
+            }
+            g = self.park(tid, g);
+        }
+        g.note_progress();
         g.done[tid] = true;
         g.midsearch[tid] = NO_OBJ;
         g.run_len += 1; // exit is a virtual decision point, see replay semantics
@@ -418,7 +512,59 @@ impl Scheduler {
 
 impl State {
     fn runnable(&self, t: usize) -> bool {
-        !self.done[t]
+        !self.done[t] && !self.blocked[t]
+    }
+
+    #[inline]
+    fn note_progress(&mut self) {
+        self.progress += 1;
+    }
+
+    /// Called by a parked thread on a timer tick. If the baton holder is asleep in the kernel
+    /// (two ticks in a row, no decision point in between, not in a harness-owned wait), take
+    /// the baton away from it. Returns the thread to wake.
+    fn check_stall(&mut self, n: usize) -> Option<usize> {
+        let b = self.current;
+        if b == NOBODY || b >= n {
+            return None;
+        }
+        if self.progress != self.last_progress_seen {
+            self.last_progress_seen = self.progress;
+            self.last_progress_at = std::time::Instant::now();
+            self.stall_ticks = 0;
+            return None;
+        }
+        if self.harness_wait[b] {
+            return None;
+        }
+        match thread_state(self.ktid[b]) {
+            Some('S') | Some('D') => self.stall_ticks += 1,
+            _ => {
+                self.stall_ticks = 0;
+                return None;
+            }
+        }
+        if self.stall_ticks < 2 {
+            return None;
+        }
+        self.stall_ticks = 0;
+        // prefer the thread that handed the baton to b: it most likely holds the lock
+        let prev = self.prev_holder;
+        let next = if prev < n && prev != b && !self.done[prev] && !self.blocked[prev] {
+            Some(prev)
+        } else {
+            (0..n).find(|&t| t != b && !self.done[t] && !self.blocked[t])
+        };
+        let next = next?;
+        self.blocked[b] = true;
+        self.stats.blocked_handoffs += 1;
+        let rl = self.run_len;
+        self.trace.push((b as u32, rl));
+        self.prev_holder = b;
+        self.current = next;
+        self.run_len = 0;
+        self.note_progress();
+        Some(next)
     }
 
     fn initial(&mut self, n: usize) -> usize {
